@@ -23,7 +23,10 @@ PROF_URLS = [
     "https://ofx.alpha-bank.test/ofx/profile?fi=202",
     "https://ofx.gamma-invest.test/ofx/profile",
     "https://OFX.Delta-Trust.TEST:443/OFX/Profile/",       # upper-case host, explicit default port, trailing slash
+    "https://ofx.beta-cu.test/OFX/Profile",                # differs from [1] only in the case of the path
+    "https://ofx.alpha-bank.test/ofx/profile?FI=202",      # differs from [3] only in the case of the query
 ]
+# (paths and query strings are case-sensitive: [1]/[6] and [3]/[7] are different servers; only host names are not)
 V1 = [102, 103, 151, 160]
 V2 = [200, 201, 202, 203, 210, 211, 220]
 
@@ -87,7 +90,7 @@ class World:
             svc = f"https://svc{k}.{host.split('.', 1)[1].lower()}:8443/svc"
         else:
             svc = f"http://svc{k}.{host.split('.', 1)[1].lower()}/plain/svc"
-        fi = peers.SimFI(self.sim, self.net, "ABCDEF"[k], prof, svc, cookies=cookies, form=form,
+        fi = peers.SimFI(self.sim, self.net, "ABCDEFGH"[k], prof, svc, cookies=cookies, form=form,
                          pretty=pretty)
         fi.index = k
         if msgsets is not None:
@@ -101,6 +104,13 @@ class World:
         out = []
         for _ in range(n):
             k = self.ch.pick("fi.url", len(PROF_URLS))
+            if out and self.ch.flag("fi.url.near", 0.3):
+                # near-collisions on purpose: another server on the host of one already drawn (other port, other
+                # query, or the same path/query in another letter case)
+                host = peers.url_parts_q(PROF_URLS[out[0]])[1].lower()
+                near = [j for j in range(len(PROF_URLS)) if j not in out and peers.url_parts_q(PROF_URLS[j])[1].lower() == host]
+                if near:
+                    k = near[self.ch.pick("fi.url.near.which", len(near))]
             while k in out:
                 k = (k + 1) % len(PROF_URLS)
             out.append(k)
